@@ -44,7 +44,7 @@ func link(n, l string) Entry { return Entry{T: "link", N: n, L: l} }
 // inside but really outside, reusing their names, passing through them,
 // naming files of the process directory, and the plainly illegal ones.
 var vocab = []Entry{
-	/* 0*/ dir("pkg/d"),
+	/* 0*/ sym("pkg/d/f", "s/../../new"), // DANGLING: lexically pkg/new, really the not yet existing $ROOT/a/new (pkg/d itself is pre-populated)
 	/* 1*/ sym("pkg/d/s", ".."), // -> pkg (inside)
 	/* 2*/ sym("pkg/d/f", "s/../../victim"), // lexically pkg/victim, really $ROOT/a/victim
 	/* 3*/ reg("pkg/d/f"),
@@ -68,6 +68,7 @@ var vocab = []Entry{
 	/*21*/ link("pkg/y", "x"), // alias of an earlier (hard) link
 	/*22*/ reg("pkg/y"),
 	/*23*/ dir("pkg/d/o"), // directory over a directory link
+	/*24*/ sym("pkg/d/f", "s/../../outdir/newfile"), // DANGLING: new file in an existing outside directory
 }
 
 // followUps are pushed, one after the other, after an enumerated archive in
@@ -184,7 +185,11 @@ func titleCase(i int) Case {
 // ---- random / mutated sequences over the full vocabulary -------------------
 
 var nameSegs = []string{"d", "s", "f", "x", "o", "e", "h", "y", "new", "outdir", "victim", "sub", "up", "in"}
-var tails = []string{"victim", "victim2", "outdir", "outdir/new", "new", "", "cwd/secret", "pkg", "pkg/keep", "a/victim", "secret"}
+// tails name existing objects outside the working directory and, as often, objects that do NOT exist yet
+// (a new file next to the working directory, a new file in an existing outside directory): a link to
+// those dangles, and whatever is written through it is a creation.
+var tails = []string{"victim", "victim2", "outdir", "outdir/new", "new", "", "cwd/secret", "pkg", "pkg/keep", "a/victim", "secret",
+	"outdir/newfile", "created.txt", "new2", "pkg/created.txt", "sub/newfile", "cwd/newfile"}
 var randTitles = []string{"pkg", "pkg", "pkg", "pkg", "pkg", "pkg", "pkg/sub2", ".", "sub/outdir", "sub/pkg", "in/pkg", "$WD/pkg", "p/q", "pkg/", "./pkg", "outdir"}
 
 func pick[T any](rng *rand.Rand, xs []T) T { return xs[rng.IntN(len(xs))] }
@@ -330,6 +335,20 @@ func genTarget0(rng *rand.Rand, title, name string, earlier []Entry) string {
 
 func genEntry(rng *rand.Rand, title string, earlier []Entry) Entry {
 	n := genName(rng, title, earlier)
+	var linkNames []string
+	for _, e := range earlier {
+		if e.T == "sym" || e.T == "link" {
+			linkNames = append(linkNames, e.N)
+		}
+	}
+	if len(linkNames) > 0 && rng.IntN(100) < 22 {
+		// an entry over an earlier link (dangling or not): the shape that must replace the link, never follow it
+		n = pick(rng, linkNames)
+		if rng.IntN(4) > 0 {
+			return reg(n)
+		}
+		return dir(n)
+	}
 	switch r := rng.IntN(100); {
 	case r < 33:
 		return reg(n)
@@ -457,9 +476,9 @@ func genFollowUp(rng *rand.Rand, c Case) Push {
 	case r < 45:
 		title = n + "/" + pick(rng, []string{"new", "outdir/new", "victim", "nd/new", "pkg/new"})
 	case r < 60:
-		title = join(abs, dots(1+rng.IntN(3)), pick(rng, tails[:5]))
+		title = join(abs, dots(1+rng.IntN(3)), pick(rng, append(tails[:5:5], tails[11:]...)))
 	case r < 70:
-		title = join(n, dots(1+rng.IntN(3)), pick(rng, tails[:5]))
+		title = join(n, dots(1+rng.IntN(3)), pick(rng, append(tails[:5:5], tails[11:]...)))
 	case r < 80:
 		title = abs
 	case r < 90:
